@@ -265,16 +265,21 @@ const DET_REL: f64 = 1e-12;
 const INV_RES: f64 = 1e-10;
 
 fn check_f64(a: &M, acc: &mut Acc) -> Result<(), String> {
+    check_f64_scaled(a, 1.0, acc)
+}
+/// the matrix s*A for a power-of-two (or decimal) scale s: det scales by s^n, the inverse residual is scale invariant
+fn check_f64_scaled(a: &M, scale: f64, acc: &mut Acc) -> Result<(), String> {
     let n = a.len();
-    let af = model::to_f(a);
+    let af: Vec<Vec<f64>> = model::to_f(a).iter().map(|r| r.iter().map(|x| x * scale).collect()).collect();
     let am = model::to_mat64(&af);
     let snap = am.clone();
     let d = model::det(a);
     let hadamard: f64 = af.iter().map(|row| row.iter().map(|x| x * x).sum::<f64>().sqrt()).map(|x| if x == 0.0 { 1.0 } else { x }).product();
     let got = am.determinant();
-    let err = (got - d.to_f64()).abs() / hadamard;
-    acc.worst("det_error_over_hadamard_f64", err, || model::show(a));
-    ensure!(err <= DET_REL, "f64 determinant {} vs exact {} (error/Hadamard {:e})", got, d, err);
+    let want = d.to_f64() * scale.powi(n as i32);
+    let err = (got - want).abs() / hadamard;
+    acc.worst("det_error_over_hadamard_f64", err, || format!("{} scale {:e}", model::show(a), scale));
+    ensure!(err <= DET_REL, "f64 determinant {} vs exact {} (scale {:e}; error/Hadamard {:e})", got, want, scale, err);
     ensure!(am == snap, "determinant() modified the f64 matrix");
     if d.is_zero() {
         return Ok(());
@@ -325,6 +330,31 @@ fn f64_space(ctx: &Ctx, n: usize, letters: Vec<Rat>, lname: &str) {
             }
         },
     );
+}
+
+fn scaled_f64_space(ctx: &Ctx) {
+    let scales = [2f64.powi(-60), 2f64.powi(-30), 2f64.powi(40), 1e-18, 1e18];
+    for (n, letters) in [(2usize, z5()), (3usize, z3())] {
+        let len = pow(letters.len() as u64, (n * n) as u32);
+        ctx.lattice(
+            &format!("f64 n={} uniformly scaled integer lattice x scales {{2^-60,2^-30,2^40,1e-18,1e18}}", n),
+            len * 5,
+            |idx| format!("{} scale {:e}", model::show(&model::mat_from_idx(idx / 5, n, &letters)), scales[(idx % 5) as usize]),
+            |idx, acc| {
+                let a = model::mat_from_idx(idx / 5, n, &letters);
+                acc.nontriv("uniformly scaled matrix");
+                let mut local = Acc::new("t");
+                let res = catch(|| check_f64_scaled(&a, scales[(idx % 5) as usize], &mut local));
+                acc.merge_worst(local);
+                let key = || format!("f64 scaled A={} scale {:e}", model::show(&a), scales[(idx % 5) as usize]);
+                match res {
+                    Ok(Ok(())) => {}
+                    Ok(Err(e)) => acc.fail(idx, key(), e),
+                    Err(p) => acc.fail(idx, key(), format!("unexpected panic: {}", p)),
+                }
+            },
+        );
+    }
 }
 
 fn cletters(full: bool) -> Vec<(Cmplx, CQ)> {
@@ -437,6 +467,7 @@ fn main() {
     f64_space(&ctx, 1, z5(), "{0,1,-1,2,-2}");
     f64_space(&ctx, 2, z5(), "{0,1,-1,2,-2}");
     f64_space(&ctx, 3, z3(), "{0,1,-1}");
+    scaled_f64_space(&ctx);
     complex_space(&ctx, 1, true);
     complex_space(&ctx, 2, true);
     complex_space(&ctx, 3, false);
